@@ -104,7 +104,7 @@ def run_tlc(
     meta = os.path.join(workdir, "meta_" + module)
     if os.path.isdir(meta):
         shutil.rmtree(meta)
-    cmd = ["java", "-XX:+UseParallelGC"]
+    cmd = ["java", "-XX:+UseParallelGC", "-Xss64m"]
     if heap:
         cmd.append("-Xmx" + heap)
     cmd.append("-DTLA-Library=" + SPEC_DIR)
